@@ -123,7 +123,7 @@ pub fn sibling_messages(w: &mut World, rng: &mut Rng, ext_signer: &Option<(mls_r
     let gce = w.base_gce();
     let Ok(Ok(mut g2)) = guarded(|| creator.create_group(gce, Default::default(), None)) else { return vec![] };
     while g2.current_epoch() < cur {
-        if !matches!(guarded(|| g2.commit(vec![])), Ok(Ok(_))) || !matches!(guarded(|| g2.apply_pending_commit()), Ok(Ok(_))) {
+        if !matches!(guarded(|| g2.commit(vec![])), Ok(Ok(_))) || !matches!(guarded(|| g2.apply_pending_alt()), Ok(Ok(_))) {
             return vec![];
         }
     }
@@ -533,7 +533,7 @@ impl Tamper {
             }
             ("commit", None, Some(c)) if c != to => {
                 let mut pg = w.g(c).clone();
-                if guarded(|| pg.apply_pending_commit()).map(|r| r.is_ok()) != Ok(true) {
+                if guarded(|| pg.apply_pending_alt()).map(|r| r.is_ok()) != Ok(true) {
                     return;
                 }
                 pg
@@ -807,7 +807,7 @@ impl Tamper {
             // for a key below the root: which leaves are under the forged node
             let visible_to: Option<(u32, u32)> = if name.starts_with("path_node_") && name.contains("_from_top_") || name.starts_with("path_node_lowest") {
                 let mut fg = cg.clone();
-                if !matches!(guarded(|| fg.apply_pending_commit()), Ok(Ok(_))) {
+                if !matches!(guarded(|| fg.apply_pending_alt()), Ok(Ok(_))) {
                     continue;
                 }
                 let forged = vh::direct_path_public(&fg, fg.current_member_index())
